@@ -84,6 +84,8 @@ type DB struct {
 	GGlobal map[string]string      // name -> sort
 	SpecFns map[string]*SpecFn
 	Axioms  []Clause
+	GGroups map[string][]string
+	GNat    map[string]bool
 	Tracked []string // type names whose objects are tracked by dynamic type (rtype)
 	Files   []string
 	patKeys []string
@@ -101,7 +103,7 @@ type SpecFn struct {
 
 func newDB() *DB {
 	return &DB{Funcs: map[string]*FuncContract{}, Ifaces: map[string]*FuncContract{}, FnTypes: map[string]*FuncContract{},
-		Preds: map[string]*Pred{}, GFields: map[string]*GhostField{}, GGlobal: map[string]string{}, SpecFns: map[string]*SpecFn{}}
+		Preds: map[string]*Pred{}, GFields: map[string]*GhostField{}, GGlobal: map[string]string{}, SpecFns: map[string]*SpecFn{}, GGroups: map[string][]string{}, GNat: map[string]bool{}}
 }
 
 var tagRe = regexp.MustCompile(`^([a-z-]+)(\[([A-Za-z0-9, ]*)\])?\s*(.*)$`)
@@ -345,6 +347,13 @@ func (db *DB) loadContractFile(path, pkgPath string) error {
 					if err != nil {
 						return err
 					}
+					if e.Op == "id" && db.GGroups[e.Name] != nil {
+						// a ghost group stands for its members
+						for _, g := range db.GGroups[e.Name] {
+							list = append(list, &Expr{Op: "id", Name: g})
+						}
+						continue
+					}
 					list = append(list, e)
 				}
 			}
@@ -401,7 +410,15 @@ func (db *DB) loadContractFile(path, pkgPath string) error {
 				parts := strings.SplitN(f[1], ".", 2)
 				db.GFields[f[1]] = &GhostField{parts[0], parts[1], ghostSort(strings.Join(f[2:], " "))}
 			} else if len(f) >= 3 && f[0] == "global" {
+				if f[2] == "nat" {
+					// a counter: never negative (assumed wherever the global gets a fresh value)
+					db.GNat[f[1]] = true
+					f[2] = "int"
+				}
 				db.GGlobal[f[1]] = ghostSort(strings.Join(f[2:], " "))
+			} else if len(f) >= 3 && f[0] == "group" {
+				// ghost group name member...: "modifies name" stands for all members
+				db.GGroups[f[1]] = f[2:]
 			} else {
 				return fmt.Errorf("%s: bad ghost decl %q", path, rest)
 			}
